@@ -75,7 +75,7 @@ func VerifSelftest_QueryParser() string {
 	env := envs.NewBuilder().Build()
 	res := verifResolver()
 	vocab := []string{"name", "age", "fields.age", "twitter", "=", "!=", "~", ">=", "<", "has", "is", "and", "AND", "or", "(", ")",
-		`"bob"`, `"a\"b"`, "bob", "12", "+12", "a.b.c", "x-y", "$", "android", "hash", "orange", `"`}
+		`"bob"`, `"a\"b"`, "bob", "12", "+12", "a.b.c", "x-y", "$", "android", "hash", "orange", `"`, "\"é “x” ü\""}
 	n, accepted := 0, 0
 	check := func(q string) string {
 		n++
